@@ -2,6 +2,7 @@ import Bmc.Proofs.C02
 import Bmc.Proofs.C12
 import Bmc.Proofs.C03
 import Bmc.Lemmas.HandshakeLive
+import Bmc.Lemmas.ResponseAccepted
 import Bmc.Crypto.Toy
 /-! # C01 — session establishment agrees on keys with every conforming BMC (property theorems only)
 
@@ -161,6 +162,50 @@ example :
     let o : Opts := { user := [0x61], pass := [0x70, 0x77], priv := 4, auth := 1, integ := 1, conf := 1 }
     let b : Spec.BmcSide := { kuid := [0x70, 0x78], sidc := 5, rc := List.replicate 16 0xAB, guid := List.replicate 16 0x44 }
     (newSession C o (List.replicate 16 7) (honestScript C .sha1 o (List.replicate 16 7) b)).2 = .incorrectPassword := by
+  decide +kernel
+
+-- the response is returned to the caller -----------------------------------------------------------------------------
+
+/-- RESPONSE RETURNED (last clause of C01): when the BMC answers a command with the specification's response datagram
+    (`responseDatagram`: response message with the request's NetFn + 1, command, sequence and group / OEM prefix, any
+    completion code `cc` other than the two temporary ones and any body `data`; AES-CBC under K2 with any 16-byte IV;
+    wrapped for the console's session ID with any sequence number; AuthCode under K1) the command completes after ONE
+    transmission and the caller receives exactly `cc` and `data` — for every lawful cipher/hash, key set, command,
+    counter value and whatever the script holds afterwards -/
+theorem response_returned (C : Ops) (hC : C.Lawful) (c : Cmd) (hf : c.reqFails = false) (s : Sess)
+    (iv : Bytes) (ivs : List Bytes) (cc : UInt8) (data : Bytes) (seq : Nat) (riv : Bytes) (rest : List Outcome)
+    (hriv : riv.length = 16) (hm : (responseMsg c cc).WF) (hid : s.localID < 4294967296) (hseq : seq < 4294967296)
+    (hlen : (responseAes C s.keys c cc data riv).length < 65536) (hnt : isTemp cc = false) :
+    (sendLoop C c s (iv :: ivs) (.reply (responseDatagram C s.keys c cc data seq riv) :: rest)).2 =
+      ([datagramOf C s.keys c s.inbound iv], .ok cc data) := by
+  rw [sendLoop_reply C c hf, classify_response C hC s.keys c cc data seq riv hriv hm hid hseq hlen, hnt]
+  simp only [Bool.false_eq_true, if_false, attempt_init_eq]
+
+/-- the response message of every request the library can build is well-formed: the hypothesis `hm` above holds for
+    every even (request) NetFn below 63, LUN below 4, enterprise number below 2^24, with the group body / enterprise
+    fields used only by the group / OEM NetFns — which is how `requestMessage` fills them -/
+theorem responseMsg_wf (c : Cmd) (cc : UInt8) (hfn : c.fn.toNat < 63) (heven : c.fn.toNat % 2 = 0) (hlun : c.lun.toNat < 4)
+    (hent : c.ent < 16777216) (hb : isGroup (c.fn + 1) = false → c.body = 0) (he : isOEM (c.fn + 1) = false → c.ent = 0) :
+    (responseMsg c cc).WF := by
+  have h1 : (c.fn + 1).toNat = c.fn.toNat + 1 := by
+    rw [UInt8.toNat_add]; simp; omega
+  refine ⟨by show (c.fn + 1).toNat < 64; omega, by show (0 : UInt8).toNat < 4; decide, hlun, by show (1 : UInt8).toNat < 64; decide,
+    hent, hb, he, fun h => ?_⟩
+  exfalso
+  have : isRequest (c.fn + 1) = false := by
+    simp only [isRequest, beq_eq_false_iff_ne, ne_eq]
+    intro h0
+    have := congrArg UInt8.toNat h0
+    rw [UInt8.toNat_mod, h1] at this
+    simp at this
+    omega
+  simp [responseMsg, this] at h
+
+/-- non-vacuity: Get Device ID answered with completion code 00 and an 11-byte body under the toy crypto -/
+example :
+    (sendLoop Crypto.toy { fn := 6, cmd := 1 } { localID := 7, remoteID := 9, integ := 1, k1 := [1], k2 := List.replicate 16 0 }
+      [List.replicate 16 3] [.reply (responseDatagram Crypto.toy ⟨7, 9, 1, [1], List.replicate 16 0⟩ { fn := 6, cmd := 1 } 0
+        [0x20, 1, 2, 3, 2, 0xbf, 0, 0, 0, 0, 0] 5 (List.replicate 16 4))]).2.2 = .ok 0 [0x20, 1, 2, 3, 2, 0xbf, 0, 0, 0, 0, 0] := by
   decide +kernel
 
 end Bmc.Proofs.C01
